@@ -105,7 +105,44 @@ fn rewrite(s: &Schema, f: &mut dyn FnMut(&mut Grp) -> bool) -> Option<Schema> {
   }
 }
 
+/// a map group of the schema (directly or nested) satisfying `p`
+fn any_map_group(s: &Schema, p: &dyn Fn(&Grp) -> bool) -> bool {
+  let mut found = false;
+  let _ = rewrite(s, &mut |g: &mut Grp| {
+    if p(g) {
+      found = true;
+    }
+    false
+  });
+  found
+}
+fn type_keyed(e: &Entry) -> bool {
+  matches!(&e.kind, EK::Val(Some(Key::Arrow(k, _)), _) if !(k.op.is_none() && matches!(k.t2, T2::Lit(_))))
+}
+
 pub fn classify_json(c: &Case) -> Option<String> {
+  if let Some(f) = classify_semantic(c) {
+    return Some(f);
+  }
+  // Second route: structural candidate AND the state is on the committed state list of the
+  // finding (known/<id>.states). Used for the instances of the recorded defects whose
+  // wrong behaviour the rewrites above cannot mimic (repeating type-keyed members, several
+  // type-keyed members, a first alternative that matches but leaves keys over).
+  if (c.expected, c.got) == (Tri::Acc, &Obs::Invalid) {
+    let k = crate::core::statelist::key(&[c.text, &crate::docs::to_json_text(c.doc)]);
+    if any_map_group(c.schema, &|g: &Grp| g.0.iter().any(|alt| alt.len() >= 2 && alt.iter().any(type_keyed)))
+      && crate::core::statelist::listed(F_GREEDY, k)
+    {
+      return Some(F_GREEDY.into());
+    }
+    if any_map_group(c.schema, &|g: &Grp| g.0.len() >= 2) && crate::core::statelist::listed(F_CHOICE, k) {
+      return Some(F_CHOICE.into());
+    }
+  }
+  None
+}
+
+fn classify_semantic(c: &Case) -> Option<String> {
   let s = c.schema;
   match (c.expected, c.got) {
     (Tri::Acc, Obs::Invalid) => {
